@@ -19,7 +19,14 @@ func (heap *Heap[T]) ToJSON() ([]byte, error) {
 
 // FromJSON populates the heap from the input JSON representation.
 func (heap *Heap[T]) FromJSON(data []byte) error {
-	return heap.list.FromJSON(data)
+	err := heap.list.FromJSON(data)
+	if err == nil {
+		// the document lists the elements in arbitrary order: restore the heap property
+		for i := heap.list.Size()/2 - 1; i >= 0; i-- {
+			heap.bubbleDownIndex(i)
+		}
+	}
+	return err
 }
 
 // UnmarshalJSON @implements json.Unmarshaler
